@@ -208,6 +208,7 @@ def specs(tier):
     add("slice plain", "slice_obs", dict())
     add("slice row subtotal + col subtotal", "slice_obs", dict(row_ins=[S("r12", [1, 2])], col_ins=[S("c23", [2, 3], anchor="top")]))
     add("slice row difference", "slice_obs", dict(row_ins=[D("r1-3", [1], [3])]))
+    add("slice row difference + col subtotal (no column difference)", "slice_obs", dict(row_ins=[D("r1-3", [1], [3])], col_ins=[S("c23", [2, 3], anchor="top")]))
     add("slice col difference + row subtotal", "slice_obs", dict(row_ins=[S("r13", [1, 3], anchor=1)], col_ins=[D("c12-3", [1, 2], [3])]))
     add("slice row difference x col difference", "slice_obs", dict(row_ins=[D("r2-1", [2], [1], anchor="top")], col_ins=[D("c3-1", [3], [1])]))
     add("slice overlapping subtotals", "slice_obs", dict(row_ins=[S("r12", [1, 2]), S("r23", [2, 3], anchor=2)]))
